@@ -23,7 +23,8 @@ EXTENDS Naturals, Sequences, FiniteSets, TLC, Json
 
 CONSTANTS G, MaxCalls, WriteThrough,
           D,          \* descriptors (appenders) on the one target file
-          Offsets     \* "append" | "private"
+          Offsets,    \* "append" | "private"
+          PoisonEvery \* every PoisonEvery-th call of a goroutine carries a value that cannot be encoded (0: none)
 
 VARIABLES pc, n, todo, userBuf, file, off, acked, crashed, how
 vars == <<pc, n, todo, userBuf, file, off, acked, crashed, how>>
@@ -32,15 +33,22 @@ vars == <<pc, n, todo, userBuf, file, off, acked, crashed, how>>
 kernel == { file[i] : i \in DOMAIN file }
 
 Line(g) == <<g, n[g]>>
+\* calls <<g, i>> whose fields cannot be encoded: formatting panics in the caller
+Unencodable == IF PoisonEvery = 0 THEN {} ELSE { <<g, i>> : g \in G, i \in { j \in 1..MaxCalls : j % PoisonEvery = 0 } }
 
 Init == /\ pc = [g \in G |-> "idle"] /\ n = [g \in G |-> 0]
         /\ todo = [g \in G |-> {}] /\ file = <<>> /\ off = [d \in D |-> 1]
         /\ userBuf = <<>> /\ acked = {} /\ crashed = FALSE /\ how = "none"
 
-Call(g) == /\ ~crashed /\ pc[g] = "idle" /\ n[g] < MaxCalls
+Call(g) == /\ ~crashed /\ pc[g] = "idle" /\ n[g] < MaxCalls /\ <<g, n[g] + 1>> \notin Unencodable
            /\ n' = [n EXCEPT ![g] = @ + 1] /\ pc' = [pc EXCEPT ![g] = "formatted"]
            /\ todo' = [todo EXCEPT ![g] = D]
            /\ UNCHANGED <<userBuf, file, off, acked, crashed, how>>
+\* a call that cannot be encoded panics while formatting: nothing is written, and nothing is acknowledged -
+\* the caller sees the panic, not a return (a design that swallowed the panic would acknowledge a line that is nowhere)
+Panic(g) == /\ ~crashed /\ pc[g] = "idle" /\ n[g] < MaxCalls /\ <<g, n[g] + 1>> \in Unencodable
+            /\ n' = [n EXCEPT ![g] = @ + 1]
+            /\ UNCHANGED <<pc, todo, userBuf, file, off, acked, crashed, how>>
 \* the record rec written through descriptor d: at the end of the file, or at d's private offset
 Put(f, d, rec) == IF Offsets = "append" \/ off[d] > Len(f) THEN Append(f, rec)
                   ELSE [f EXCEPT ![off[d]] = rec]
@@ -64,7 +72,7 @@ LogReturn(g) == /\ ~crashed /\ pc[g] = "written"
 Crash(h) == /\ ~crashed /\ crashed' = TRUE /\ how' = h /\ userBuf' = <<>>
             /\ UNCHANGED <<pc, n, todo, file, off, acked>>
 
-Next == (\E g \in G : Call(g) \/ (\E d \in D : SysWrite(g, d)) \/ BufWrite(g) \/ LogReturn(g)) \/ Flush
+Next == (\E g \in G : Call(g) \/ Panic(g) \/ (\E d \in D : SysWrite(g, d)) \/ BufWrite(g) \/ LogReturn(g)) \/ Flush
         \/ (\E h \in {"kill", "exit"} : Crash(h))
 Spec == Init /\ [][Next]_vars
 \* in append mode the order of the records plays no role: states are identified up to it
@@ -74,7 +82,9 @@ View == <<pc, n, todo, userBuf, IF Offsets = "append" THEN kernel ELSE file, off
 \* (one copy per descriptor of the logger)
 AckedSurvive == \A x \in acked, d \in D : <<d, x>> \in kernel
 NoUserBuffer == WriteThrough => userBuf = <<>>
+NeverAckedUnencodable == acked \cap Unencodable = {}
 \* crash placements for the replayer: number of acknowledged calls at the crash, and the kind of crash
 Emit == crashed => PrintT(<<"EMIT", ToJson([goroutines |-> Cardinality(G), calls |-> MaxCalls,
-                                            k |-> Cardinality(acked), how |-> how, twin |-> Cardinality(D) > 1])>>)
+                                            k |-> Cardinality(acked), how |-> how, twin |-> Cardinality(D) > 1,
+                                                                                        poison |-> PoisonEvery])>>)
 =============================================================================
